@@ -47,7 +47,7 @@ theorem invA_loc_atm {s : State} {t : Tid} {e : Event} {x' : Thr} (hi : InvA s) 
     have hnq : (s.recs r).stat ≠ .queued := fun e => by have := hi.qWait r e; rw [ho] at this; cases this
     by_cases hz : s.queue.isEmpty = true <;> simp only [hz, if_true, if_false] <;> loc_case hl
   | wRmCasFail r exp new obs hl hr => loc_case hl
-  | sRcCasFail site r exp new obs hl => loc_case hl
+  | sRcCasFail site r exp new obs hl hr0 => loc_case hl
   | wwLd obs f rest hl hlist => by_cases hc : wantTransfer (s.recs f).lt obs (s.thr t).list.length (s.thr t).allReaders = true <;> simp only [hc, if_true, if_false] <;> loc_case hl
   | wwRelLd site obs hl => rcases hl with ⟨_, hl⟩ | ⟨_, hl⟩ <;> loc_case hl
   | wwCasFail exp new obs hl => loc_case hl
